@@ -844,3 +844,7 @@ Proof.
   - apply eqt_trans; reflexivity.
 Qed.
 End Partial.
+
+Lemma part_eq_key v : v_intv_guard v = true ->
+  forall p q : part R, part_eqt v p q = TT -> @part_key R p = @part_key R q.
+Proof. intros Hg p q E. apply (part_eqt_TT v Hg) in E. subst. reflexivity. Qed.
